@@ -805,6 +805,19 @@ class Pool(BasePool[C]):
             # No connection acquisition, nothing to do here.
             return
 
+        # Blocks are put on the waitlist when the pool is full, to be served
+        # by the next release().  If capacity was freed in some other way
+        # meanwhile (a discarded or garbage-collected connection finished
+        # closing, a connect attempt gave up), no release may be coming for
+        # them, so open their first connection now.
+        while (
+            self._new_blocks_waitlist
+            and self._cur_capacity < self._max_capacity
+        ):
+            block, _ = self._new_blocks_waitlist.popitem(last=False)
+            if block.count_waiters() and not block.count_conns():
+                self._schedule_new_conn(block)
+
         if total_nwaiters < self._max_capacity:
             # The total demand for connections is lower than our max capacity,
             # we could bail out early.
@@ -859,14 +872,15 @@ class Pool(BasePool[C]):
                     self._log_to_snapshot(
                         dbname=block.dbname, event='reset-quota')
 
-            if not was_starving and self._new_blocks_waitlist:
+            if self._new_blocks_waitlist:
                 # Mode D assumes all connections are already in use or to be
                 # used, depending on their `release()` to schedule transfers.
-                # When just entering Mode D, there can be a special case when
-                # no further `release()` will be called because all acquired
-                # connections were returned to the pool before `_tick()` got a
-                # chance to set `self._is_starving`, while some other blocks
-                # are literally starving to death (blocked forever).
+                # There can be a special case when no further `release()` will
+                # be called because all acquired connections were returned to
+                # the pool (before `_tick()` got a chance to set
+                # `self._is_starving`, or while it was still set after a
+                # burst), while some other blocks are literally starving to
+                # death (blocked forever).
                 #
                 # This branch handles this particular case, by stealing
                 # connections from the idle blocks and try to free them into
